@@ -10,7 +10,12 @@
 //! serial jumps across the u32 wrap, updates while a response is suspended).
 //! A second family of histories (`c06_big`) runs the same driver and the same
 //! oracle over large data sets, large diffs and single very large PDUs, for
-//! every path that depends on the size of a response.
+//! every path that depends on the size of a response. A third family
+//! (`c06_foreign`) puts the real client in front of a scripted cache that is
+//! not the library's server and uses the freedoms the RFCs give a sender
+//! (reserved flag bits and fields, any order, items with a history inside one
+//! answer, timing at the ends of its ranges); it has its own model of what a
+//! transcript prescribes, written from the documents.
 //!
 //! Oracle (from the statement): after every `Client::step()` that returned
 //! `Ok`, replay the (action, payload) log the target was handed on the
@@ -43,6 +48,9 @@ use c06_keys::{has_maxlen_neighbours, run_laws, RefTargets};
 #[path = "c06_big.rs"]
 mod c06_big;
 use c06_big::{BigKind, BigPlan};
+
+#[path = "c06_foreign.rs"]
+mod c06_foreign;
 
 //------------ target --------------------------------------------------------
 
@@ -1517,6 +1525,10 @@ pub fn run(ctx: &mut Ctx) {
     if large_total > 0 {
         ctx.obs("large_data_histories", large);
     }
+    // the real client against a scripted cache that is not the library's
+    // server (reserved flag bits and fields, any order, items with a history
+    // inside one answer, timing at the ends of the ranges)
+    c06_foreign::run_foreign(ctx);
     let mut rng = ctx.rng("histories");
     for i in 0..n {
         let seed = rng.next_u64();
